@@ -89,6 +89,13 @@ pub static OPS: &[Op] = &[
         let p = q * factor;
         (show_d(a[0].unit() * q), show_total(clamp(p as i128)))
     }},
+    Op { name: "compose", sig: &[Ty::Bool, Ty::U64, Ty::U64, Ty::U64, Ty::U64, Ty::U64, Ty::U64, Ty::U64], pre: always, f: |a| {
+        let sign: i8 = if a[0].boolean() { 1 } else { -1 };
+        let v: Vec<u64> = (1..8).map(|i| a[i].int() as u64).collect();
+        let w = [DAY_NS, 3_600_000_000_000, 60_000_000_000, 1_000_000_000, 1_000_000, 1_000, 1];
+        let m: i128 = v.iter().zip(w.iter()).map(|(x, y)| *x as i128 * *y).sum();
+        (show_d(Duration::compose(sign, v[0], v[1], v[2], v[3], v[4], v[5], v[6])), show_total(clamp(if sign < 0 { -m } else { m })))
+    }},
     // ---------------------------------------------------------------- C01 arithmetic
     Op { name: "add", sig: &[Ty::Dur, Ty::Dur], pre: always, f: |a| {
         (show_d(a[0].dur() + a[1].dur()), show_total(clamp(a[0].total() + a[1].total())))
